@@ -511,7 +511,7 @@ func runC14(c *core.Ctx, o Options) {
 	// Q3b: nothing between the handler and the outbound queue runs in another goroutine
 	checkSendChainNoSpawn(c, s, "Q3")
 	c.Extra["paths"] = len(traces)
-	c.RuleMin = map[string]int{"Q0": 10, "Q1": 1, "Q2": 1, "Q3": 7, "Q4": 12, "Q5": 1}
+	c.RuleMin = map[string]int{"Q0": 8, "Q1": 1, "Q2": 1, "Q3": 7, "Q4": 12, "Q5": 1}
 	c.MinObl = 7
 }
 
@@ -561,8 +561,10 @@ func (s *sess) checkRegisteredOnce(rule string, in bool, key string) {
 	switch {
 	case r.Parent.Parent() != nil:
 		ob.Fail("the handler is registered inside the function literal %s: it is added again each time that literal runs, and each copy answers", an.NameOf(r.Parent))
-	case inLoop(r.Site.Block()):
+	case inLoop(r.Site.Block()) || chainInLoop(r.Chain):
 		ob.Fail("the handler is registered inside a loop")
+	case reach[r.Where] != "":
+		ob.Fail("the handler is registered in %s, which is reached from %s: it is added again on every such call (the pool only appends), so one message is then handled — and answered — several times", an.NameOf(r.Where), reach[r.Where])
 	case reach[r.Parent] != "":
 		ob.Fail("the handler is registered in %s, which is reached from %s: it is added again on every such call (the pool only appends), so one message is then handled — and answered — several times", an.NameOf(r.Parent), reach[r.Parent])
 	default:
@@ -570,7 +572,7 @@ func (s *sess) checkRegisteredOnce(rule string, in bool, key string) {
 	}
 	// … and on every successful way through that function: a role (or a configuration) for which the registration is
 	// skipped never handles the message type
-	paths, _ := an.EnumPaths(r.Parent, 4096)
+	paths, _ := an.EnumPathsX(r.Parent, 4096)
 	skipped := ""
 	n := 0
 	for _, p := range paths {
@@ -597,6 +599,15 @@ func (s *sess) checkRegisteredOnce(rule string, in bool, key string) {
 	}
 	c.Check(n == 0, rule, an.NameOf(r.Parent), "the "+key+" handler is registered on every successful path of "+an.NameOf(r.Parent), r.Site.Pos(), "no success path bypasses the registration",
 		fmt.Sprintf("%d successful path(s) of %s return without registering the %s handler (e.g. under [%s]): a session configured that way never handles that message type", n, an.NameOf(r.Parent), key, skipped))
+}
+
+func chainInLoop(chain []*ssa.Call) bool {
+	for _, c := range chain {
+		if inLoop(c.Block()) {
+			return true
+		}
+	}
+	return false
 }
 
 // checkUnboundedFieldRead: the connection reader takes fields off the stream with bufio.Reader.ReadBytes, the one bufio primitive
